@@ -14,9 +14,15 @@ for v in clean patched; do
   if [ -f "$sd/demo.lua" ]; then
     ( cd "$sd" && timeout 120 "/tmp/confirm-$d-$v.bin" demo.lua > "/tmp/confirm-$d-$v.out" 2>&1; echo "exit=$?" >> "/tmp/confirm-$d-$v.out" )
   fi
+  if [ -f "$sd/demo_test.go" ]; then
+    # a Go test demo: seeded/<dir>/demo_dir names the package directory it belongs in (default lib)
+    dd=lib; [ -f "$sd/demo_dir" ] && dd="$(cat "$sd/demo_dir")"
+    cp "$sd/demo_test.go" "$wt/$dd/zz_demo_test.go"
+    ( cd "$wt" && timeout 900 go test -ldflags=-checklinkname=0 -vet=off -count=1 -run 'Test(Demo)?C[0-9][0-9]' "./$dd/" 2>&1 | grep -E "^(--- |ok|FAIL|PASS)" | sed -E 's/[0-9.]+s//g' > "/tmp/confirm-$d-$v.out"; echo "exit=${PIPESTATUS[0]}" >> "/tmp/confirm-$d-$v.out" )
+  fi
   git -C /repo worktree remove --force "$wt"
   rm -f "/tmp/confirm-$d-$v.bin"
 done
 echo "--- clean"; head -30 /tmp/confirm-$d-clean.out; echo "--- patched"; head -30 /tmp/confirm-$d-patched.out
-if cmp -s /tmp/confirm-$d-clean.out /tmp/confirm-$d-patched.out; then echo "RESULT: outputs identical (demo does not discriminate)"; else echo "RESULT: outputs differ"; fi
+if [ ! -s /tmp/confirm-$d-clean.out ] || [ ! -s /tmp/confirm-$d-patched.out ]; then echo "RESULT: no demo output (demo not run)"; elif cmp -s /tmp/confirm-$d-clean.out /tmp/confirm-$d-patched.out; then echo "RESULT: outputs identical (demo does not discriminate)"; else echo "RESULT: outputs differ"; fi
 rm -f /tmp/confirm-$d-clean.out /tmp/confirm-$d-patched.out
